@@ -12,6 +12,14 @@ the specification term
 differs (modulus, shift, strictness of the window test, the -1, the table start, the element list); an expression
 outside the vocabulary is an ANALYSIS-ERROR (exit 2) — the check refuses, it does not guess.
 
+CYC-CASES    (sa/props/c17ev.py) the same question answered by abstract evaluation on sampled cycles — two colour
+             sequences (one with a colour that returns within the cycle), three offsets, every time step over two
+             periods, some asked again, then after time_offset and cycle_elements were assigned through their setters;
+             durations, offset and time step stay atoms, comparisons are answered by the valuation of the case.  It
+             decides whatever the code looks like; when the term interpreter below does not recognise the code, the
+             check reports that the for-all proof is missing and decides on these cases (it refuses only when both
+             stop).  The same world asks TrafficLight.get_state_at_time_step (CYC-DELEGATE, lights constructed active
+             and not active).
 CYC-TABLE    cycle_init_timesteps is [off, off+d1, .., off+T] built from the durations of the cycle elements in order
 CYC-LOOKUP   get_state_at_time_step returns elements[i].state with i the window of off + ((t-off) mod T) in that table
 CYC-DELEGATE TrafficLight.get_state_at_time_step returns its cycle's answer for the same time step
@@ -604,42 +612,69 @@ def run(repo, res, tier):
     f = c.methods.get("get_state_at_time_step")
     if g is None or f is None:
         raise AnalysisError("cycle_init_timesteps / get_state_at_time_step missing")
+    # the sampled cases first (whatever the code looks like), then the symbolic proof for all values
+    from ..strdom import Undecided
+    from . import c17ev
+
+    res.rule("CYC-CASES", "get_state_at_time_step answers the state the cycle defines, evaluated on sampled cycles (two colour sequences x three offsets x every time step over two periods, repeated queries, after the setters)", 6)
+    cases_refusal = None
     try:
-        tb = Interp(repo, c).table_of_getter(g)
-    except Unrecognised as e:
-        raise AnalysisError("cycle_init_timesteps uses a construct outside the analysed vocabulary: %s" % e)
-    qn = "TrafficLightCycle.cycle_init_timesteps"
-    ok = isinstance(tb, Table)
-    res.check("CYC-TABLE", "cycle_init_timesteps is a table of cumulative durations with a leading start", ok, m, g, "cycle_init_timesteps = %r" % (tb,), "the table of window starts is not [start, start+d1, .., start+T] of the cycle elements in order", qualname=qn)
-    if ok:
-        res.check("CYC-TABLE", "table is built from the durations of the cycle's own elements", tb.src == "elements", m, g, "durations from %s" % tb.src, "the windows are not those of the cycle elements", qualname=qn)
-        res.check("CYC-TABLE", "the leading entry equals the base of the cumulative sums (first window starts where the table starts)", tb.first == tb.base, m, g, "table %r" % (tb,), "the first window does not start at the base of the cumulative sums: its length differs from the first element's duration", qualname=qn)
-        res.check("CYC-TABLE", "the table is anchored at the time offset (or at 0)", tb.base in (Lin({"off": 1}), Lin()), m, g, "table %r" % (tb,), "the table is shifted by something else than the time offset", qualname=qn)
-    # lookup
-    qn = "TrafficLightCycle.get_state_at_time_step"
-    ps = [a.arg for a in f.args.args]
-    if len(ps) != 2:
-        raise AnalysisError("get_state_at_time_step signature changed")
-    ip = Interp(repo, c, tparam=ps[1])
-    ret = None
+        c17ev.cases_rule(repo, res)
+        c17ev.light_rule(repo, res)
+    except (Undecided, AnalysisError) as e:
+        cases_refusal = str(e)
+
+    def symbolic():
+        try:
+            tb = Interp(repo, c).table_of_getter(g)
+        except Unrecognised as e:
+            raise AnalysisError("cycle_init_timesteps uses a construct outside the analysed vocabulary: %s" % e)
+        qn = "TrafficLightCycle.cycle_init_timesteps"
+        ok = isinstance(tb, Table)
+        res.check("CYC-TABLE", "cycle_init_timesteps is a table of cumulative durations with a leading start", ok, m, g, "cycle_init_timesteps = %r" % (tb,), "the table of window starts is not [start, start+d1, .., start+T] of the cycle elements in order", qualname=qn)
+        if ok:
+            res.check("CYC-TABLE", "table is built from the durations of the cycle's own elements", tb.src == "elements", m, g, "durations from %s" % tb.src, "the windows are not those of the cycle elements", qualname=qn)
+            res.check("CYC-TABLE", "the leading entry equals the base of the cumulative sums (first window starts where the table starts)", tb.first == tb.base, m, g, "table %r" % (tb,), "the first window does not start at the base of the cumulative sums: its length differs from the first element's duration", qualname=qn)
+            res.check("CYC-TABLE", "the table is anchored at the time offset (or at 0)", tb.base in (Lin({"off": 1}), Lin()), m, g, "table %r" % (tb,), "the table is shifted by something else than the time offset", qualname=qn)
+        # lookup
+        qn = "TrafficLightCycle.get_state_at_time_step"
+        ps = [a.arg for a in f.args.args]
+        if len(ps) != 2:
+            raise AnalysisError("get_state_at_time_step signature changed")
+        ip = Interp(repo, c, tparam=ps[1])
+        ret = None
+        try:
+            for s in f.body:
+                if isinstance(s, ast.Return):
+                    ret = ip.ev(s.value)
+                    break
+                ip.exec(s)
+        except Unrecognised as e:
+            raise AnalysisError("get_state_at_time_step uses a construct outside the analysed vocabulary: %s" % e)
+        except CacheMutation as cm:
+            res.bad("CYC-FRESH", "get_state_at_time_step leaves the memoised table untouched", Finding("CYC-FRESH", m, cm.node, "get_state_at_time_step: %s updates the memoised table in place" % norm(cm.node), "the table handed out by the getter is the cached object: changing it in place shifts the window starts for every later query, so repeated queries answer differently", qualname=qn))
+            ret = "mutated"
+        if ret is None:
+            raise AnalysisError("get_state_at_time_step has no straight-line return")
+        if ret == "mutated":
+            ret = Cases([])
+        cases = ret.alts if isinstance(ret, Cases) else [([], ret)]
+        for facts, rv in cases:
+            lookup_case(res, m, f, qn, facts, rv, len(cases) > 1)
+
     try:
-        for s in f.body:
-            if isinstance(s, ast.Return):
-                ret = ip.ev(s.value)
-                break
-            ip.exec(s)
-    except Unrecognised as e:
-        raise AnalysisError("get_state_at_time_step uses a construct outside the analysed vocabulary: %s" % e)
-    except CacheMutation as cm:
-        res.bad("CYC-FRESH", "get_state_at_time_step leaves the memoised table untouched", Finding("CYC-FRESH", m, cm.node, "get_state_at_time_step: %s updates the memoised table in place" % norm(cm.node), "the table handed out by the getter is the cached object: changing it in place shifts the window starts for every later query, so repeated queries answer differently", qualname=qn))
-        ret = "mutated"
-    if ret is None:
-        raise AnalysisError("get_state_at_time_step has no straight-line return")
-    if ret == "mutated":
-        ret = Cases([])
-    cases = ret.alts if isinstance(ret, Cases) else [([], ret)]
-    for facts, rv in cases:
-        lookup_case(res, m, f, qn, facts, rv, len(cases) > 1)
+        symbolic()
+    except AnalysisError as e:
+        if cases_refusal is not None:
+            raise AnalysisError("%s; and the evaluation on cases stopped at: %s" % (e, cases_refusal))
+        # outside the vocabulary of the term interpreter: the for-all proof is not available, the sampled cases are
+        res.rule("CYC-TABLE", "table of window starts", 0)
+        res.rule("CYC-LOOKUP", "window lookup of the reduced time step", 0)
+        res.note("NOT PROVED FOR ALL VALUES: %s — decided on the sampled cases of CYC-CASES only" % e)
+    else:
+        if cases_refusal is not None:
+            res.rule("CYC-CASES", res.rules["CYC-CASES"], 0)
+            res.note("the evaluation on cases stopped (%s); the symbolic rules CYC-TABLE / CYC-LOOKUP decided for all values" % cases_refusal)
     # delegate
     tl = m.classes.get("TrafficLight")
     if tl is None:
@@ -657,8 +692,12 @@ def run(repo, res, tier):
 
     drd = _RD(d)
     only_simple = all(isinstance(x, (ast.Return, ast.Assign, ast.AnnAssign)) for x in body)
-    res.check("CYC-DELEGATE", "TrafficLight returns its cycle's answer", len(rets) == 1 and len(calls) == 1 and only_simple and _canon(calls[0].func.value, drd, rets[0], [tp]) == "self.traffic_light_cycle", m, d, " ; ".join(norm(s) for s in body)[:120], "the traffic light does not report what its cycle reports", qualname=qn)
-    for cl in calls:
+    plain = len(rets) == 1 and len(calls) == 1 and only_simple
+    if plain or cases_refusal is not None:
+        res.check("CYC-DELEGATE", "TrafficLight returns its cycle's answer", plain and _canon(calls[0].func.value, drd, rets[0], [tp]) == "self.traffic_light_cycle", m, d, " ; ".join(norm(s) for s in body)[:120], "the traffic light does not report what its cycle reports", qualname=qn)
+    else:
+        res.note("TrafficLight.get_state_at_time_step is not a plain delegation; decided on the evaluated cases of CYC-DELEGATE only")
+    for cl in calls if plain else []:
         res.check("CYC-DELEGATE", "TrafficLight asks about the queried time step", [_canon(a, drd, rets[0], [tp]) for a in cl.args] + [_canon(k.value, drd, rets[0], [tp]) for k in cl.keywords] == [tp], m, cl, norm(cl), "the cycle is asked about another time step", qualname=qn)
     # the table is a memo: the reported state follows the *current* definition only if every mutator refreshes it
     from . import c11
